@@ -817,11 +817,27 @@ def chainid_family(ctx, st):
                     "truncated/random/slash-heavy byte strings, MakeChainId on short and long ids; distinct = (has '/', flags, magic empty) classes")
 
 
-EXTRA_FAMILIES = [receipts_family, merkle_family, hardfork_family, txsign_family, chainid_family]
-EXTRA_TARGETS = ["Common/Sha256.vo", "Common/Lit.vo", "Codec/Receipt.vo", "Codec/Merkle.vo", "Codec/Hardfork.vo"]  # evaluated models that no theorem depends on
+# ------------------------------------------------------------------ transaction root
+def txroot_family(ctx, st):
+    rng = ctx.rng
+    quick = ctx.tier == "quick"
+    lists = [[rand_tx(rng) for _ in range(n)] for n in ([0, 1, 2, 3, 4, 5] if quick else list(range(0, 18)))]
+    cases = [{"kind": "TR", "txs": [json_tx(t) for t in l]} for l in lists]
+    obs = run_engine(ctx, st.types_bin, "TestVerifCodecEngine", cases, "txroot")
+    items, src = [], []
+    for l, o in zip(lists, obs):
+        items.append("([%s], %s)" % ("; ".join(coq_tx(t) for t in l), cb(hb(o["root"]))))
+        src.append({"n": len(l), "root": o["root"]})
+        st.nontrivial.add(("TR", len(l)))
+    st.add_family("tx_root", "list txbody * bytes", "(txroot_case_ok sha256)", items, src)
+    st.rules.append("tx root: CalculateTxsRootHash over random tx lists of each size (Hash fields = CalculateTxHash)")
+
+
+EXTRA_FAMILIES = [receipts_family, merkle_family, hardfork_family, txsign_family, chainid_family, txroot_family]
+EXTRA_TARGETS = ["Common/Sha256.vo", "Common/Lit.vo", "Codec/Receipt.vo", "Codec/Merkle.vo", "Codec/Hardfork.vo", "Codec/TxRoot.vo"]  # evaluated models that no theorem depends on
 
 IMPORTS = """From Coq Require Import NArith ZArith List Bool String Uint63.
-From Verif Require Import Common.Bytes Common.Lit Common.Sha256 Codec.Fields Codec.Digest Codec.ChainId Codec.Merkle Codec.Receipt Codec.Hardfork %s.
+From Verif Require Import Common.Bytes Common.Lit Common.Sha256 Codec.Fields Codec.Digest Codec.ChainId Codec.Merkle Codec.TxRoot Codec.Receipt Codec.Hardfork %s.
 Import ListNotations.
 Open Scope N_scope.
 """
